@@ -103,4 +103,10 @@ def load():
         "one universal script keyed on addresses/subjects; Go listeners stand in for 'other hooks'",
         "TLA+ contract with hook answers + TLC tour/enumeration replayed on real server + Lua host + TLC trace validation + race detector",
         "DESIGN.md 5/C17", "smtp")
+    reg("C16", stores.c16, "model_checking",
+        "MailstoreTrace derives from the contract's state changes the after-events each history must produce; TLC validates the events recorded by a real listener on both brokers "
+        "(multiset equality = exactly once, no overlapping invocations, stored before deleted, per-mailbox arrival order) for TLC-enumerated and simulated histories on both stores.",
+        "as C07/C08; invocation overlap is provoked by slow listener invocations (2 ms), observed with a single counter under one mutex (no wall-clock comparison)",
+        "TLA+ contract-derived expected events + TLC-generated histories on real stores/brokers + TLC trace validation",
+        "DESIGN.md 5/C16", "mailstore")
     return REG
